@@ -78,6 +78,7 @@ import numpy as np
 
 from .. import util
 
+NO_INTERFERENCE = True  # loading -Ofast kernels would switch the process to flush-to-zero: denormal contents must survive
 ID = "C17"
 LEVEL = "exploration"
 TITLE = "Saved fields reload bit-exactly and mismatching files are rejected"
